@@ -2,64 +2,19 @@
 (harness/memx.go: ALIGN / @T+n directives, one real connection per connection id) instead of
 `memrun`, and the real-clock TCP sample with tolerance to second boundaries.
 
-memlib.run_family drives generation/shrinking/evidence; the only thing replaced is the function
-that executes a program text (memlib.run_prog), through `use_memx(mode)`."""
-import contextlib
+memlib.run_family drives generation/shrinking/evidence; the checks pass `runner=memx_runner(mode)`."""
+import functools
 import itertools
-import re
 
 from . import lib, memlib
 
 
-CHUNK = 2000   # cases per harness process: pending virtual-clock timers (long TTLs) and the
-               # per-case Managers they keep alive make one huge process slow down
+CHUNK = 2000   # cases per harness process
 
 
-def run_prog_memx(mode):
-    def run_prog(d, progtext, tag="p", timeout=600):
-        prog = d / (tag + ".prog")
-        out = d / (tag + ".trace")
-        ver = d / (tag + ".verdict")
-        prog.write_text(progtext)
-        for f in (out, ver):
-            if f.exists():
-                f.unlink()
-        cases = memlib.split_cases(progtext)
-        traces = []
-        for ci in range(0, max(len(cases), 1), CHUNK):
-            chunk = cases[ci:ci + CHUNK]
-            cprog = d / (tag + ".chunk.prog")
-            cout = d / (tag + ".chunk.trace")
-            cprog.write_text("".join("\n".join(c) + "\n" for c in chunk))
-            if cout.exists():
-                cout.unlink()
-            rc, log = lib.sh("%s memx %s %s %s %s" % (lib.BUILD / memlib.FT, cprog, cout, d, mode), cwd=d,
-                             timeout=timeout, extra_env={"GOMAXPROCS": "1"})
-            part = cout.read_text() if cout.exists() else ""
-            traces.append(part)
-            if rc != 0 or not cout.exists():
-                prog_case = ""
-                pf = d / (tag + ".chunk.trace.progress")
-                if pf.exists():
-                    prog_case = pf.read_text().split("\n")[0].strip()
-                out.write_text("".join(traces))
-                return None, "".join(traces), "harness rc=%s case=%s log=%s" % (rc, prog_case, log[-1500:])
-        out.write_text("".join(traces))
-        rc, log = lib.sh("%s mem %s %s" % (lib.BUILD / "modelrun", out, ver), cwd=d, timeout=timeout)
-        if rc != 0 or not ver.exists():
-            return None, out.read_text(), "modelrun rc=%s log=%s" % (rc, log[-1500:])
-        return ver.read_text().splitlines(), out.read_text(), None
-    return run_prog
-
-
-@contextlib.contextmanager
-def use_memx(mode):
-    old = memlib.run_prog
-    memlib.run_prog = run_prog_memx(mode)
-    try:
-        yield
-    finally:
-        memlib.run_prog = old
+def memx_runner(mode):
+    """runner for memlib.run_family: harness subcommand memx in the given mode (view | handle)"""
+    return functools.partial(memlib.run_prog, subcmd="memx", extra=mode, chunk=CHUNK)
 
 
 # ----------------------------------------------------------------------------- real clock, TCP
